@@ -731,3 +731,303 @@ Proof.
   - intros t cols H. unfold tables_of in H. apply in_map_iff in H. destruct H as [[t' cs] [Heq Hin]].
     simpl in Heq. inversion Heq. subst. exists cs. split; [exact Hin|]. rewrite map_map. simpl. apply map_id.
 Qed.
+
+(* ================================================================== the DataFrames are lossless *)
+(* ---- frames with a default index: the columns are recovered from the rows ---- *)
+Fixpoint zip_cons {A : Type} (heads : list A) (tails : list (list A)) : list (list A) :=
+  match heads, tails with
+  | h :: hs, t :: ts => (h :: t) :: zip_cons hs ts
+  | _, _ => []
+  end.
+(* columns of a frame with k columns, read back from its rows *)
+Fixpoint cols_of_rows {A : Type} (k : nat) (rows : list (list A)) : list (list A) :=
+  match rows with
+  | [] => repeat [] k
+  | r :: t => zip_cons r (cols_of_rows k t)
+  end.
+
+Definition head1 {A : Type} (c : list A) : list A := match c with x :: _ => [x] | [] => [] end.
+
+Lemma zip_cons_heads_tails {A : Type} (cols : list (list A)) :
+  (forall c, In c cols -> c <> []) -> zip_cons (flat_map head1 cols) (map (@tl A) cols) = cols.
+Proof.
+  induction cols as [|c t IH]; intros H; simpl; [reflexivity|].
+  destruct c as [|x c']; [exfalso; apply (H []); [left; reflexivity|reflexivity]|].
+  simpl. f_equal. apply IH. intros c Hc. apply H. right. exact Hc.
+Qed.
+
+Lemma all_len_spec {A : Type} n (ls : list (list A)) :
+  all_len n ls = true <-> forall l, In l ls -> length l = n.
+Proof.
+  unfold all_len. rewrite forallb_forall. split; intros H l Hl; specialize (H l Hl).
+  - apply Nat.eqb_eq. exact H.
+  - apply Nat.eqb_eq. exact H.
+Qed.
+
+Lemma transpose_lossless {A : Type} n : forall (cols : list (list A)),
+  all_len n cols = true -> cols_of_rows (length cols) (transpose n cols) = cols.
+Proof.
+  induction n as [|n IH]; intros cols H; simpl.
+  - rewrite all_len_spec in H. induction cols as [|c t IHc]; simpl; [reflexivity|].
+    rewrite IHc by (intros l Hl; apply H; right; exact Hl).
+    assert (length c = 0%nat) as Hc by (apply H; left; reflexivity).
+    destruct c; [reflexivity|discriminate].
+  - assert (all_len n (map (@tl A) cols) = true) as Ht.
+    { rewrite all_len_spec in *. intros l Hl. apply in_map_iff in Hl. destruct Hl as [c [Hc1 Hc2]]. subst.
+      specialize (H c Hc2). destruct c; simpl in *; [discriminate|]. inversion H. reflexivity. }
+    specialize (IH _ Ht). rewrite map_length in IH. rewrite IH.
+    change (fun c : list A => match c with | [] => [] | x :: _ => [x] end) with (@head1 A).
+    apply zip_cons_heads_tails. intros c Hc E. subst. rewrite all_len_spec in H. specialize (H [] Hc). discriminate.
+Qed.
+
+Lemma frame_of_columns_lossless {A : Type} (cols : list (list A)) rows :
+  frame_of_columns cols = Ok rows -> cols_of_rows (length cols) rows = cols.
+Proof.
+  unfold frame_of_columns. destruct cols as [|c t]; [intros H; inversion H; reflexivity|].
+  destruct (all_len (length c) (c :: t)) eqn:E; [|discriminate].
+  intros H. inversion H. apply transpose_lossless. exact E.
+Qed.
+
+(* ---- (Step, AgentID)-indexed frames: the records are recovered by grouping on the Step index ---- *)
+Definition step_of (r : row) : Z := fst (fst r).
+Fixpoint group_rows (rows : list row) : list (Z * list row) :=
+  match rows with
+  | [] => []
+  | r :: t => match group_rows t with
+              | (s, g) :: rest => if s =? step_of r then (s, r :: g) :: rest else (step_of r, [r]) :: (s, g) :: rest
+              | [] => [(step_of r, [r])]
+              end
+  end.
+
+Definition nonempty {A B : Type} (p : A * list B) : bool := negb (is_nil (snd p)).
+
+Lemma group_rows_block s (rows : list row) : forall tail G,
+  rows <> [] -> (forall r, In r rows -> step_of r = s) ->
+  group_rows tail = G -> (match G with (s', _) :: _ => s' <> s | [] => True end) ->
+  group_rows (rows ++ tail) = (s, rows) :: G.
+Proof.
+  induction rows as [|r t IH]; intros tail G Hne Hs HG Hhead; [congruence|].
+  destruct t as [|r' t'].
+  - simpl. rewrite HG. rewrite (Hs r (or_introl eq_refl)).
+    destruct G as [|[s' g] rest]; [reflexivity|].
+    destruct (s' =? s) eqn:E; [apply Z.eqb_eq in E; contradiction|reflexivity].
+  - change ((r :: r' :: t') ++ tail) with (r :: ((r' :: t') ++ tail)).
+    assert (group_rows ((r' :: t') ++ tail) = (s, r' :: t') :: G) as HX.
+    { apply IH; try assumption; try discriminate. intros x Hx. apply Hs. right. exact Hx. }
+    remember ((r' :: t') ++ tail) as X eqn:EX. simpl. rewrite HX.
+    rewrite (Hs r (or_introl eq_refl)). rewrite Z.eqb_refl. reflexivity.
+Qed.
+
+Lemma group_concat (recs : list (Z * list row)) :
+  NoDup (map fst recs) ->
+  (forall s rows r, In (s, rows) recs -> In r rows -> step_of r = s) ->
+  group_rows (concat (map snd recs)) = filter nonempty recs.
+Proof.
+  induction recs as [|[s rows] rest IH]; intros Hnd Hk; simpl; [reflexivity|].
+  inversion Hnd as [|? ? Hs Hnd']. subst.
+  assert (group_rows (concat (map snd rest)) = filter nonempty rest) as IH'.
+  { apply IH; [exact Hnd'|]. intros s' rows' r H1 H2. apply (Hk s' rows' r); [right; exact H1|exact H2]. }
+  destruct rows as [|r0 rows']; unfold nonempty at 1; simpl; [exact IH'|].
+  apply (group_rows_block s (r0 :: rows') _ (filter nonempty rest)); [discriminate| |exact IH'|].
+  - intros r Hr. apply (Hk s (r0 :: rows') r); [left; reflexivity|exact Hr].
+  - destruct (filter nonempty rest) as [|[s' g] rest'] eqn:E; [exact I|].
+    intros Heq. subst s'. apply Hs.
+    assert (In (s, g) (filter nonempty rest)) as Hin by (rewrite E; left; reflexivity).
+    apply filter_In in Hin. destruct Hin as [Hin _]. apply in_map_iff. exists (s, g). split; [reflexivity|exact Hin].
+Qed.
+
+(* ---- the records are well formed after EVERY history (also after failing collects) ---- *)
+Definition rows_keyed (recs : list (Z * list row)) : Prop :=
+  forall s rows r, In (s, rows) recs -> In r rows -> step_of r = s.
+Definition rows_width (n : nat) (recs : list (Z * list row)) : Prop :=
+  forall s rows r, In (s, rows) recs -> In r rows -> length (snd r) = n.
+Definition trecs_keyed (trecs : list (Z * list (Z * list row))) : Prop :=
+  forall s inner t rows r, In (s, inner) trecs -> In (t, rows) inner -> In r rows -> step_of r = s.
+
+Record records_wf (cfg : config) (d : dc) : Prop := {
+  wf_akeys : NoDup (map fst (d_arecs d));
+  wf_akeyed : rows_keyed (d_arecs d);
+  wf_awidth : rows_width (length (c_areps cfg)) (d_arecs d);
+  wf_tkeys : NoDup (map fst (d_trecs d));
+  wf_tkeyed : trecs_keyed (d_trecs d) }.
+
+Lemma In_aset {V : Type} k (v : V) l k' v' :
+  In (k', v') (aset k v l) -> (k' = k /\ v' = v) \/ In (k', v') l.
+Proof.
+  induction l as [|[k2 v2] t IH]; simpl.
+  - intros [H|[]]. inversion H. left. split; reflexivity.
+  - destruct (k =? k2) eqn:E.
+    + apply Z.eqb_eq in E. subst k2. intros [H|H]; [inversion H; left; split; reflexivity|right; right; exact H].
+    + intros [H|H]; [right; left; exact H|]. destruct (IH H) as [H'|H']; [left; exact H'|right; right; exact H'].
+Qed.
+
+Lemma map_res_In {A B : Type} (f : A -> result B) (l : list A) ys y :
+  map_res f l = Ok ys -> In y ys -> exists x, In x l /\ f x = Ok y.
+Proof.
+  revert ys. induction l as [|x t IH]; intros ys; simpl.
+  - intros H. inversion H. simpl. tauto.
+  - destruct (f x) as [y0|e] eqn:Ef; [|discriminate].
+    destruct (map_res f t) as [ys'|e]; [|discriminate].
+    intros H. inversion H. subst. intros [Hy|Hy].
+    + subst. exists x. split; [left; reflexivity|exact Ef].
+    + destruct (IH ys' eq_refl Hy) as [x' [H1 H2]]. exists x'. split; [right; exact H1|exact H2].
+Qed.
+
+Lemma map_res_length {A B : Type} (f : A -> result B) (l : list A) ys :
+  map_res f l = Ok ys -> length ys = length l.
+Proof.
+  revert ys. induction l as [|x t IH]; intros ys; simpl.
+  - intros H. inversion H. reflexivity.
+  - destruct (f x); [|discriminate]. destruct (map_res f t) as [ys'|]; [|discriminate].
+    intros H. inversion H. simpl. rewrite (IH ys' eq_refl). reflexivity.
+Qed.
+
+Lemma record_agents_rows w reps ags rows r :
+  record_agents w reps ags = Ok rows -> In r rows -> step_of r = w_steps w /\ length (snd r) = length reps.
+Proof.
+  intros H Hr. unfold record_agents in H. destruct (map_res_In _ _ _ _ H Hr) as [a [_ Ha]].
+  unfold agent_row in Ha. destruct (map_res (fun p => eval_arep w a (snd p)) reps) as [vs|] eqn:E; [|discriminate].
+  inversion Ha. subst. simpl. split; [reflexivity|]. apply (map_res_length _ _ _ E).
+Qed.
+
+Lemma collect_types_keyed w treps : forall inner,
+  (forall t rows r, In (t, rows) inner -> In r rows -> step_of r = w_steps w) ->
+  forall t rows r, In (t, rows) (fst (collect_types w treps inner)) -> In r rows -> step_of r = w_steps w.
+Proof.
+  induction treps as [|[t0 reps] rest IH]; intros inner Hin; simpl; [exact Hin|].
+  destruct (type_agents w t0) as [ags|e]; [|exact Hin].
+  destruct (record_agents w reps ags) as [rows0|e] eqn:E; [|exact Hin].
+  apply IH. intros t rows r H1 H2. apply In_aset in H1. destruct H1 as [[_ ->]|H1].
+  - apply (record_agents_rows _ _ _ _ _ E H2).
+  - apply (Hin t rows r H1 H2).
+Qed.
+
+Lemma collect_stage1_records cfg w d :
+  d_arecs (fst (collect_stage1 cfg w d)) = d_arecs d /\ d_trecs (fst (collect_stage1 cfg w d)) = d_trecs d.
+Proof.
+  unfold collect_stage1. destruct (is_nil (c_mreps cfg)); [split; reflexivity|].
+  destruct (if d_validated d then Ok tt else validate_all w (c_mreps cfg)); [|split; reflexivity].
+  simpl. destruct (collect_mvars w (c_mreps cfg) (d_mvars d)). split; reflexivity.
+Qed.
+
+Lemma stage2_wf cfg w d : records_wf cfg d -> records_wf cfg (fst (collect_stage2 cfg w d)).
+Proof.
+  intros [H1 H2 H3 H4 H5]. unfold collect_stage2. destruct (is_nil (c_areps cfg)); [constructor; assumption|].
+  destruct (record_agents w (c_areps cfg) (w_agents w)) as [rows|e] eqn:E; [|constructor; assumption].
+  constructor; simpl; try assumption.
+  - apply aset_keys_NoDup. exact H1.
+  - intros s rows' r Hin Hr. apply In_aset in Hin. destruct Hin as [[-> ->]|Hin].
+    + apply (record_agents_rows _ _ _ _ _ E Hr).
+    + apply (H2 s rows' r Hin Hr).
+  - intros s rows' r Hin Hr. apply In_aset in Hin. destruct Hin as [[-> ->]|Hin].
+    + apply (record_agents_rows _ _ _ _ _ E Hr).
+    + apply (H3 s rows' r Hin Hr).
+Qed.
+
+Lemma stage3_wf cfg w d : records_wf cfg d -> records_wf cfg (fst (collect_stage3 cfg w d)).
+Proof.
+  intros [H1 H2 H3 H4 H5]. unfold collect_stage3. destruct (is_nil (c_treps cfg)); [constructor; assumption|].
+  destruct (collect_types w (c_treps cfg) []) as [inner r0] eqn:E.
+  constructor; simpl; try assumption.
+  - apply aset_keys_NoDup. exact H4.
+  - intros s inner' t rows r Hin Ht Hr. apply In_aset in Hin. destruct Hin as [[-> ->]|Hin].
+    + assert (inner = fst (collect_types w (c_treps cfg) [])) as -> by (rewrite E; reflexivity).
+      apply (collect_types_keyed w (c_treps cfg) [] (fun _ _ _ F => match F with end) t rows r Ht Hr).
+    + apply (H5 s inner' t rows r Hin Ht Hr).
+Qed.
+
+Lemma wf_ext cfg d d' : d_arecs d' = d_arecs d -> d_trecs d' = d_trecs d -> records_wf cfg d -> records_wf cfg d'.
+Proof. intros E1 E2 [H1 H2 H3 H4 H5]. constructor; rewrite ?E1, ?E2; assumption. Qed.
+
+Lemma collect_wf cfg w d : records_wf cfg d -> records_wf cfg (fst (collect cfg w d)).
+Proof.
+  intros H. unfold collect.
+  pose proof (collect_stage1_records cfg w d) as [E1 E2].
+  destruct (collect_stage1 cfg w d) as [d1 r1]. simpl in E1, E2.
+  assert (records_wf cfg d1) as H1 by (apply (wf_ext cfg d d1 E1 E2 H)).
+  destruct r1 as [u|e]; [|exact H1].
+  set (d1' := with_csteps d1 (d_csteps d1 ++ [w_steps w])).
+  assert (records_wf cfg d1') as H1' by (apply (wf_ext cfg d1 d1' eq_refl eq_refl H1)).
+  pose proof (stage2_wf cfg w d1' H1') as H2.
+  destruct (collect_stage2 cfg w d1') as [d2 r2]. simpl in H2.
+  destruct r2 as [u2|e2]; [|exact H2].
+  apply stage3_wf. exact H2.
+Qed.
+
+Lemma add_row_records d t r ign :
+  d_arecs (fst (add_row d t r ign)) = d_arecs d /\ d_trecs (fst (add_row d t r ign)) = d_trecs d.
+Proof.
+  unfold add_row. destruct (aget t (d_tables d)) as [cols|]; [|split; reflexivity].
+  destruct (negb ign && existsb (fun c => negb (amem (fst c) r)) cols); split; reflexivity.
+Qed.
+
+Lemma step_wf cfg s o : records_wf cfg (s_d s) -> records_wf cfg (s_d (fst (step cfg s o))).
+Proof.
+  intros H. destruct (is_world_op o) eqn:Ew.
+  - rewrite step_world by exact Ew. exact H.
+  - destruct o; try discriminate; unfold step.
+    + pose proof (collect_wf cfg (s_w s) (s_d s) H) as Hc.
+      destruct (collect cfg (s_w s) (s_d s)). exact Hc.
+    + pose proof (add_row_records (s_d s) t r ignore_missing) as [E1 E2].
+      destruct (add_row (s_d s) t r ignore_missing) as [d' res]. simpl in *.
+      apply (wf_ext cfg (s_d s) d' E1 E2 H).
+    + exact H.
+Qed.
+
+Lemma exec_wf cfg ops : forall s, records_wf cfg (s_d s) -> records_wf cfg (s_d (exec cfg s ops)).
+Proof.
+  induction ops as [|o t IH]; intros s H; simpl; [exact H|]. apply IH. apply step_wf. exact H.
+Qed.
+
+Lemma init_wf cfg : records_wf cfg (dc_init cfg).
+Proof.
+  constructor; simpl; try (apply NoDup_nil); unfold rows_keyed, rows_width, trecs_keyed; simpl; intros; contradiction.
+Qed.
+
+(* ---- the frames of a well-formed collector give the records back ---- *)
+Lemma agent_frame_lossless cfg d fr :
+  records_wf cfg d -> agent_frame cfg d = Ok fr ->
+  af_index fr = [IDX_STEP; IDX_AGENTID] /\ af_cols fr = map fst (c_areps cfg) /\
+  group_rows (af_rows fr) = filter nonempty (d_arecs d) /\
+  (forall r, In r (af_rows fr) -> length (snd r) = length (af_cols fr)).
+Proof.
+  intros [H1 H2 H3 H4 H5]. unfold agent_frame. destruct (is_nil (c_areps cfg)); [discriminate|].
+  intros H. inversion H. simpl. split; [reflexivity|]. split; [reflexivity|]. split.
+  - apply group_concat; assumption.
+  - intros r Hr. rewrite map_length. apply in_concat in Hr. destruct Hr as [rows [Hrows Hr]].
+    apply in_map_iff in Hrows. destruct Hrows as [[s rows'] [Heq Hin]]. simpl in Heq. subst.
+    apply (H3 s rows r Hin Hr).
+Qed.
+
+Lemma type_frame_lossless cfg d t :
+  records_wf cfg d ->
+  af_index (type_frame cfg d t) = [IDX_STEP; IDX_AGENTID] /\
+  af_cols (type_frame cfg d t) = map fst (match aget t (c_treps cfg) with Some reps => reps | None => [] end) /\
+  group_rows (af_rows (type_frame cfg d t)) = filter nonempty (type_records d t).
+Proof.
+  intros [H1 H2 H3 H4 H5]. split; [reflexivity|]. split; [reflexivity|]. simpl.
+  apply group_concat.
+  - unfold type_records. rewrite map_map. simpl. exact H4.
+  - intros s rows r Hin Hr. unfold type_records in Hin. apply in_map_iff in Hin.
+    destruct Hin as [[s' inner] [Heq Hin]]. simpl in Heq. inversion Heq. subst.
+    destruct (aget t inner) as [rows'|] eqn:E; [|contradiction].
+    apply (H5 s inner t rows' r Hin (aget_In t rows' inner E) Hr).
+Qed.
+
+Lemma model_frame_lossless cfg d fr :
+  model_frame cfg d = Ok fr ->
+  combine (cf_cols fr) (cols_of_rows (length (cf_cols fr)) (cf_rows fr)) = d_mvars d.
+Proof.
+  unfold model_frame. destruct (is_nil (c_mreps cfg)); [discriminate|].
+  destruct (frame_of_columns (map snd (d_mvars d))) as [rows|e] eqn:E; [|discriminate].
+  intros H. inversion H. simpl. apply frame_of_columns_lossless in E. rewrite map_length in *.
+  rewrite E. clear. induction (d_mvars d) as [|[n l] t IH]; simpl; [reflexivity|]. rewrite IH. reflexivity.
+Qed.
+
+Lemma table_frame_lossless cols fr :
+  table_frame cols = Ok fr -> combine (cf_cols fr) (cols_of_rows (length (cf_cols fr)) (cf_rows fr)) = cols.
+Proof.
+  unfold table_frame. destruct (frame_of_columns (map snd cols)) as [rows|e] eqn:E; [|discriminate].
+  intros H. inversion H. simpl. apply frame_of_columns_lossless in E. rewrite map_length in *.
+  rewrite E. clear. induction cols as [|[n l] t IH]; simpl; [reflexivity|]. rewrite IH. reflexivity.
+Qed.
